@@ -141,7 +141,7 @@ LIMIT_BLOCK = Contract(
     modifies=("this_xstep", "mask_hit_limit"),
     loops={0: LoopSpec(anchor="range(len(self.x))", invariants=_lim_inv(), modifies=("mask_hit_limit",))},
     min_obligations=6,
-    extra=dict(ENG, variant="limit-block", block=dict(first="mask_hit_limit = np.zeros(len(self.x), dtype=bool)", count=2),
+    extra=dict(ENG, variant="limit-block", block=dict(first="mask_hit_limit = np.zeros(len(self.x), dtype=bool)", last="for ii in range(len(self.x)):"),
                frame_ghosts=False),
     note="block contract (2 statements of JacobianSolver.step): every point handed to eval(self.x - this_xstep), and hence every "
          "accepted self.x, lies within the closed x-limits")
